@@ -10,7 +10,7 @@ META = {
              "distinct_nontrivial = distinct (constructor, corruption kind, parameter, poly_trend, n_offsets) tuples."),
     "shards": {"quick": 2, "thorough": 16},
     "timeout": {"quick": 900, "thorough": 3600},
-    "min_evaluations": {"quick": 300, "thorough": 4000},
+    "min_evaluations": {"quick": 300, "thorough": 3000},
     "exhaustive_key": "systematic_grid_complete",
     "assumptions": ["any exception type counts as a refusal; a silent success on an invalid specification is the violation",
                     "the validity predicate is the property's text: all parameters present, units convertible to the canonical "
